@@ -413,6 +413,10 @@ pub struct PatternDict {
 
     #[pdf(key="Matrix")]
     pub matrix: Option<Matrix>,
+
+    /// everything else (`Type`, `PatternType`, `Shading`, `ExtGState`, ...)
+    #[pdf(other)]
+    pub other: Dictionary,
 }
 
 #[derive(Debug, DataSize)]
@@ -466,7 +470,7 @@ impl DeepClone for Pattern {
                 let ops: Vec<Op> = ops.iter().map(|op| deep_clone_op(op, cloner, &old_resources, &mut resources)).collect::<Result<Vec<_>>>()?;
                 let dict = PatternDict {
                     resources: cloner.create(resources)?.get_ref(),
-                    .. *dict
+                    .. dict.clone()
                 };
                 Ok(Pattern::Stream(dict, ops))
             }
